@@ -46,6 +46,7 @@ FILLERS = {
     "8": "8", "80": "80", "25": "25", "F$": "F$", "A": "A", "Z": "Z", "X": "X", "Qq": "Qq", "Pq%": "Pq%", "\"T.TXT\"": '"T.TXT"', "\"##\"": '"##"',
     "\"abc\"+Chr$(200)": '"abc" + Chr$(200) + "z"', "Chr$(200)+\"abcd\"": 'Chr$(200) + "abcd"', "String$(5,200)": "String$(5, 200)",
     "\"aé\"": '"a\u00e9bcd"',
+    "QQ": "QQ", "A.B$": "A.B$", "Rec.X%": "Rec.X%", "Undef.X$": "Undef.X$", "Rec.S$": "Rec.S$", "&O8": "&O8", "&o17": "&o17", "2#": "2#",
     "": "", " ": " ", ":": ":", "'": "'", ",": ",", ";": ";", "=": "=", "1 TO 2": "1 TO 2", "-": "-", "- -1": "- -1", "(N%": "(N%", "N%)": "N%)",
 }
 
@@ -81,7 +82,7 @@ TEMPLATES = {
 DECL_TEMPLATES = {
     # declarations go after the main module
     "sub-decl": ["SUB {1} ({2})", "END SUB"], "function-decl": ["FUNCTION {1} ({2})", "END FUNCTION"], "declare": ["DECLARE SUB {1} ({2})"],
-    "type-decl": ["TYPE {1}", "  {2} AS INTEGER", "END TYPE"], "type-member": ["TYPE Tq", "  Q AS {1}", "END TYPE"],
+    "type-decl": ["TYPE {1}", "  {2} AS INTEGER", "END TYPE"], "type-two": ["TYPE Tq2", "  {1} AS INTEGER", "  {2} AS STRING * 2", "END TYPE"], "type-member": ["TYPE Tq", "  Q AS {1}", "END TYPE"],
 }
 FILES = {"IN.TXT": "12,abc\r\nline two\r\n"}
 
@@ -97,7 +98,7 @@ NATURAL = {
     "redim-as": ("Qq", "Integer"), "redim-shared": ("Qq", "1"), "dim-shared-arr": ("Qq", "1"), "dim-arr-as": ("Qq", "Integer"), "dim-two": ("Qq", "Pq%"),
     "dim-to": ("1", "8"), "const-two": ("Qq", "Pq%"), "print-tab": ("1", "1"), "while-wend-var": ("0", ""), "if-else-line": ("1", "Cls"),
     "on-goto": ("1", "MyLabel"), "mid-stmt": ("S$", '"s"'), "swap": ("N%", "N%"),
-    "sub-decl": ("Qq", "Pq%"), "function-decl": ("Qq", "Pq%"), "declare": ("Qq", "Pq%"), "type-decl": ("Qq", "X"),
+    "sub-decl": ("Qq", "Pq%"), "function-decl": ("Qq", "Pq%"), "declare": ("Qq", "Pq%"), "type-decl": ("Qq", "X"), "type-two": ("Qq", "X"),
 }
 
 
@@ -117,7 +118,7 @@ def stratified(sl, rng, n_random):
 def program(tname, f1, f2):
     if tname in DECL_TEMPLATES:
         lines = [l.replace("{1}", FILLERS[f1]).replace("{2}", FILLERS[f2]) for l in DECL_TEMPLATES[tname]]
-        if tname in ("type-decl", "type-member", "declare"):
+        if tname in ("type-decl", "type-member", "type-two", "declare"):
             return "\r\n".join(lines + PRE + ['PRINT "end"'] + POST) + "\r\n"
         return "\r\n".join(PRE + ['PRINT "end"'] + POST + lines) + "\r\n"
     lines = [l.replace("{1}", FILLERS[f1]).replace("{2}", FILLERS[f2]) for l in TEMPLATES[tname]]
